@@ -1293,8 +1293,83 @@ def _nontrivial(prop, ctx):
 
 
 def run(tape, prop, tier):
+    return run_scenario(exgen.build(tape, prop, tier), prop, tier)
+
+
+def scenario_of(tape, prop, tier):
+    return exgen.build(tape, prop, tier)
+
+
+def simplifications(scn):
+    """one-step simplifications of a scenario, most drastic first (structure-aware second stage of the shrinker)"""
+    import copy
+
+    def mod(f):
+        c = copy.deepcopy(scn)
+        f(c)
+        return c
+    if scn["jobs"]:
+        yield mod(lambda c: c.__setitem__("jobs", []))
+    if scn["oe_every"]:
+        yield mod(lambda c: c.__setitem__("oe_every", 0))
+    if scn["sig_every"]:
+        yield mod(lambda c: c.__setitem__("sig_every", 0))
+    keys = sorted(scn["scripts"], key=lambda k: (int(k.split(":")[2]), int(k.split(":")[1])))
+    if len(keys) > 1:
+        half = keys[len(keys) // 2:]
+        yield mod(lambda c: [c["scripts"].pop(k) for k in half])
+        half2 = keys[:len(keys) // 2]
+        yield mod(lambda c: [c["scripts"].pop(k) for k in half2])
+    n = len(scn["bases"])
+    if n > 1:
+        def drop_pair(c):
+            b = c["bases"].pop()
+            c["bars"].pop()
+            c["prec"].pop(b, None)
+            c["init"].pop(b, None)
+            if c["lend"]:
+                c["lend"]["per_symbol"].pop(b, None)
+                for cd in list(c["lend"]["per_symbol"].values()) + ([c["lend"]["default"]] if c["lend"]["default"] else []):
+                    if cd["interest_symbol"] == b:
+                        cd["interest_symbol"] = "USD"
+            for k in [k for k in c["scripts"] if int(k.split(":")[1]) >= len(c["bases"])]:
+                c["scripts"].pop(k)
+        yield mod(drop_pair)
+    for pi, rows in enumerate(scn["bars"]):
+        if len(rows) > 2:
+            yield mod(lambda c, pi=pi: c["bars"].__setitem__(pi, c["bars"][pi][:max(2, len(c["bars"][pi]) // 2)]))
+    for pi, rows in enumerate(scn["bars"]):
+        if len(rows) > 1:
+            yield mod(lambda c, pi=pi: c["bars"][pi].pop())
+    for k in keys:
+        yield mod(lambda c, k=k: c["scripts"].pop(k))
+    for k in keys:
+        ops = scn["scripts"][k]
+        if len(ops) > 1:
+            for i in range(len(ops)):
+                yield mod(lambda c, k=k, i=i: c["scripts"][k].pop(i))
+    for j in range(len(scn["jobs"])):
+        yield mod(lambda c, j=j: c["jobs"].pop(j))
+    if scn["lend"] and scn["lend"].get("refuse_after") is not None:
+        yield mod(lambda c: c["lend"].__setitem__("refuse_after", None))
+    if scn["lend"]:
+        yield mod(lambda c: c.__setitem__("lend", None))
+    if scn["fee"]["kind"] != "none":
+        yield mod(lambda c: c["fee"].__setitem__("kind", "none"))
+    if scn["liq"]["kind"] != "inf":
+        yield mod(lambda c: c["liq"].__setitem__("kind", "inf"))
+    if scn["maxc"] != 50:
+        yield mod(lambda c: c.__setitem__("maxc", 50))
+    if scn["sub_first"]:
+        yield mod(lambda c: c.__setitem__("sub_first", False))
+    for k in keys:
+        for i, op in enumerate(scn["scripts"][k]):
+            if op["yields"] or op["sleep"]:
+                yield mod(lambda c, k=k, i=i: c["scripts"][k][i].update(yields=0, sleep=0))
+
+
+def run_scenario(scn, prop, tier):
     res = Result()
-    scn = exgen.build(tape, prop, tier)
     ctx = _execute(Ctx(scn, prop))
     herr = getattr(ctx, "harness_error", None)
     if herr:
@@ -1314,6 +1389,7 @@ def run(tape, prop, tier):
     kinds = tuple(t[0].split("(")[0] + ":" + t[1] for t in ctx.trace if t[0] != "oe")
     res.sig = digest_of((scn["fee"]["kind"], scn["liq"]["kind"], bool(scn["lend"]), len(scn["bases"]), kinds))
     res.digest = digest_of((ctx.trace, ctx.final, ctx.outcome))
+    res.scenario = scn
     res.sample = dict(config={k: scn[k] for k in ("bases", "prec", "fee", "liq", "lend", "init", "maxc", "sub_first", "ts_mode")},
                       bars_per_pair=[len(b) for b in scn["bars"]], first_bars=[b[:3] for b in scn["bars"]],
                       ops=[t[0] + " -> " + t[1] for t in ctx.trace if t[0] != "oe"][:25])
